@@ -4,7 +4,7 @@ import json, subprocess, sys, tempfile, os, xml.etree.ElementTree as ET
 b = json.load(open("/root/.vp/BASELINE.json"))
 fd, path = tempfile.mkstemp(suffix=".xml"); os.close(fd)
 subprocess.run(["/venv/bin/python", "-m", "pytest", "-q", "-p", "no:cacheprovider", "--timeout=900",
-                "--continue-on-collection-errors", "--junitxml=" + path], cwd="/repo", capture_output=True)
+                "--continue-on-collection-errors", "--junitxml=" + path], cwd=os.environ.get("BASE_REPO", "/repo"), capture_output=True)
 passed = set()
 for tc in ET.parse(path).getroot().iter("testcase"):
     if not any(ch.tag in ("failure", "error", "skipped") for ch in tc):
